@@ -29,12 +29,12 @@ CHECKS = {
     "C05": ("property-based testing against a support-closure oracle",
             "exploration",
             "Every returned solution must be contained in the closure reachable from the root requirements and accepted soft requirements through satisfied requirement edges.",
-            "Trusts reach() in vcore/src/reference.rs; bounded universes.",
+            "Trusts reach() in vcore/src/reference.rs; bounded universes. A third of the cases judge the answer of a SECOND solve of the problem on the same solver.",
             "DESIGN.md 3/C05"),
     "C06": ("metamorphic property-based testing: identical observation across repeated in-process solves and freshly started processes",
             "exploration",
             "Each generated case is solved 4 times in-process (fresh ahash keys per solver) and again in 2-3 fresh processes; solution order / conflict message / graphviz bytes must be identical.",
-            "Hash states and address layouts are sampled by repetition and re-execution, not enumerated.",
+            "Hash states and address layouts are sampled by repetition and re-execution, not enumerated. The configuration is part of the case: generated activity parameters, and in half of the cases the observation is a history (a sub-problem solved first on the same solver).",
             "DESIGN.md 3/C06"),
     "C07": ("property-based testing on universes that are conflict-free by construction, against a first-choice closure oracle",
             "exploration",
@@ -69,7 +69,7 @@ CHECKS = {
     "C13": ("stateful (history) property testing of solver reuse against the reference resolver",
             "exploration",
             "Generated histories of 2-5 solve calls on one solver (different problems, unsat, cancelled in flight, sync/async); each step is checked against the reference verdict, validity, termination and no re-request of completed metadata.",
-            "Trusts the reference search and the call-log model.",
+            "Trusts the reference search and the call-log model. Half of the cancelled asynchronous steps have the provider stop serving once it signalled cancellation (it serves again for the next call); a third of the histories use a provider whose sort_candidates re-enters the SolverCache (no cancellation there: the provider's own nested call may consume the signal).",
             "DESIGN.md 3/C13"),
     "C14": ("property-based testing: hard-problem reference verdict, validity with the soft exemption, inclusion rule on conflict-free constructions",
             "exploration",
